@@ -3,7 +3,7 @@
    Every theorem is about the model instantiated with the facts of the CURRENT source ([gen_cfg]); the generic lemmas
    hold for any configuration equal to [std_cfg], and that equality is the decidable obligation below. *)
 From Coq Require Import List NArith Bool.
-From SudachiVerif Require Import Model.Numeric Proofs.NumericProofs.
+From SudachiVerif Require Import Model.Numeric Model.NumericRef Proofs.NumericProofs Proofs.NumericRefProofs Proofs.NumericGrouped.
 Import ListNotations.
 
 (* the facts re-extracted from numeric_parser/{mod.rs,string_number.rs} (character table, unit predicates, separators,
@@ -42,3 +42,78 @@ Theorem C15_small_units :
   parse gen_cfg (su_text a b c o) = (true, 0%N, map digit_char (dec4 (su_val a b c o))).
 Proof. exact (fun a b c o => small_units gen_cfg a b c o C15_facts_as_modelled). Qed.
 Print Assumptions C15_small_units.
+
+(* ---- every reachable state is well-formed; end-to-end value of accepted strings -------------------------------------- *)
+
+(* Every state the parser reaches from NumericParser::new by a sequence of accepted characters satisfies [pinv]: the three
+   accumulators are well-formed ([wf]: point within the significand), hold decimal digits only, and the number being read
+   has scale 0.  These are exactly the hypotheses of the operation-level lemmas of C15_string_arith_refines_decimal, which
+   are thereby discharged for all reachable states. *)
+Theorem C15_wf_reachable :
+  forall cs p, p_feed gen_cfg (p_new gen_cfg) cs = (true, p) -> pinv p.
+Proof. exact (fun cs p => wf_reachable gen_cfg cs p C15_facts_as_modelled). Qed.
+Print Assumptions C15_wf_reachable.
+
+(* The reference evaluator [r_parse] (Model/NumericRef.v) has the control skeleton of the parser -- same flags, character
+   table, unit predicates, separator rules -- but computes with exact decimals: digit strings before / after the point and
+   the room below the last unit; shift is multiplication by 10^k, add is exact addition (C15_reference_add_exact).
+   For EVERY string over any alphabet (digits, kanji digits, ',', '.', small units 十百千 AND large units 万億兆) the model
+   parser and the reference agree on acceptance and on the error state, and an accepted string is normalised to the
+   rendering of the reference value. *)
+Theorem C15_parse_refines_reference :
+  forall cs,
+  let '(ok, e, out) := parse gen_cfg cs in
+  let '(ok', e', v) := r_parse gen_cfg cs in
+  ok = ok' /\ e = e' /\ (ok = true -> out = render_r v).
+Proof. exact (fun cs => parse_refines gen_cfg cs C15_facts_as_modelled). Qed.
+Print Assumptions C15_parse_refines_reference.
+
+Theorem C15_accepted_value :
+  forall cs e out, parse gen_cfg cs = (true, e, out) ->
+  exists v, r_parse gen_cfg cs = (true, e, v) /\ out = render_r v.
+Proof. exact (fun cs e out => accepted_value gen_cfg cs e out C15_facts_as_modelled). Qed.
+Print Assumptions C15_accepted_value.
+
+(* the value returned for an accepted string is an exact decimal with its room: integer part non-empty and ending in k
+   zeros, no fraction when k > 0 *)
+Theorem C15_accepted_value_is_decimal :
+  forall cs e v, r_parse gen_cfg cs = (true, e, v) -> rn_ok v.
+Proof. exact (fun cs e v => accepted_value_ok gen_cfg cs e v C15_facts_as_modelled). Qed.
+Print Assumptions C15_accepted_value_is_decimal.
+
+(* the reference addition, where defined, IS addition of the integer parts (and the accumulator has no fraction) *)
+Theorem C15_reference_add_exact :
+  forall ips fps ks ipn fpn kn c,
+  rn_ok (RNum ips fps ks) -> rn_ok (RNum ipn fpn kn) -> r_add (RNum ips fps ks) (RNum ipn fpn kn) = Some c ->
+  exists ipc, c = RNum ipc fpn kn /\ fps = [] /\ (to_N ips + to_N ipn = to_N ipc)%N /\ length ipc = length ips.
+Proof. exact r_add_exact. Qed.
+Print Assumptions C15_reference_add_exact.
+
+(* ---- thousands separators ------------------------------------------------------------------------------------------ *)
+
+(* g0 , g1 , ... , gn (n >= 1; groups of Arabic / kanji digits of ANY length, possibly empty):
+   accepted iff well-formed, and then the normalised form is the digits without the separators; otherwise the parser
+   rejects with the COMMA error (so JoinNumericPlugin falls back to separate pieces). *)
+Theorem C15_grouped :
+  forall g0c g0 gsc gs,
+  Forall2 digit_of g0c g0 -> Forall2 (Forall2 digit_of) gsc gs -> gs <> [] ->
+  let inp := g0c ++ concat (map (cons 44%N) gsc) in
+  if groups_ok g0 gs
+  then parse gen_cfg inp = (true, 0%N, map digit_char (g0 ++ concat gs))
+  else fst (parse gen_cfg inp) = (false, 2%N).
+Proof. exact (fun g0c g0 gsc gs => grouped gen_cfg g0c g0 gsc gs C15_facts_as_modelled). Qed.
+Print Assumptions C15_grouped.
+
+Theorem C15_grouped_accepted_iff :
+  forall g0c g0 gsc gs,
+  Forall2 digit_of g0c g0 -> Forall2 (Forall2 digit_of) gsc gs -> gs <> [] ->
+  fst (fst (parse gen_cfg (g0c ++ concat (map (cons 44%N) gsc)))) = groups_ok g0 gs.
+Proof. exact (fun g0c g0 gsc gs => grouped_accepted_iff gen_cfg g0c g0 gsc gs C15_facts_as_modelled). Qed.
+Print Assumptions C15_grouped_accepted_iff.
+
+(* what well-formed means: first group 1..3 digits and not all zeros, every later group exactly three digits *)
+Theorem C15_groups_ok_spec :
+  forall g0 gs, gs <> [] ->
+  (groups_ok g0 gs = true <-> (1 <= length g0 <= 3 /\ all_zero g0 = false /\ Forall (fun g => length g = 3) gs)).
+Proof. exact groups_ok_spec. Qed.
+Print Assumptions C15_groups_ok_spec.
